@@ -27,7 +27,7 @@ def gen_case(rng, i):
         k = len(a["names"])
         nv = 1 if rng.random() < .7 else 2
         c["vars"] = [int(rng.integers(k)) for _ in range(nv)]
-        c["how"] = [gen.choice(rng, ["name", "position", "poly"]) for _ in range(nv)]
+        c["how"] = [gen.choice(rng, ["name", "position", "poly", "vector-element"]) for _ in range(nv)]
     return c
 
 
@@ -53,6 +53,12 @@ def designate(p, j, how):
         return p.names[j]
     if how == "position":
         return int(j)
+    if how == "vector-element":
+        # an element of a vector of indeterminates, made under the options in force: under retain_coefficients=True it
+        # carries the other indeterminates as all-zero terms
+        idx = sorted(int(n[1:]) for n in p.names)
+        vec = numpoly.variable(idx[-1] + 1)
+        return numpoly.aspolynomial(vec)[int(p.names[j][1:])] if idx[-1] else numpoly.aspolynomial(vec)
     return numpoly.symbols(p.names[j])
 
 
